@@ -416,6 +416,9 @@ func (pr *probRun) checkArguments() {
 			continue
 		}
 		for _, a := range args {
+			if strings.HasPrefix(a, "{") {
+				continue // a key name passed as an argument (the sliding filter's Reset declares 4 of its 5 keys)
+			}
 			if _, err := strconv.ParseUint(a, 10, 64); err != nil {
 				pr.out.probe("server-received-non-numeric-index")
 				msg := fmt.Sprintf("%s: the server received %s (command %d of its log, connection c%d) with index argument %q; arguments %.120q", pr.label, ex.Argv[0], ex.Seq, ex.Conn, a, args)
